@@ -652,6 +652,44 @@ func runRows(e *core.Env, prop string) error {
 			}
 			e.Add(core.Case{Op: "pushaddrs " + declToks, Impl: impl, Nontrivial: nActive > 0, Tags: []string{"pushaddrs", fmt.Sprintf("pushed=%v", len(addrs) > 0)}, Detail: map[string]any{"block": cig.Block, "agg": cig.FilterAGG}})
 		}
+		// ---- C12: the topic restriction sent with eth_getLogs, and the declaration as it arrives from the
+		// database (no ValidateFix: the aggregation as written, any letter case, or absent)
+		var topicFilter [][]string
+		var igRaw *dig.Integration
+		rawAgg := ""
+		if prop == "C12" {
+			{
+				flt0 := ig.Filter()
+				topicFilter = flt0.Topics()
+			}
+			var tt []string
+			for _, alts := range topicFilter {
+				tt = append(tt, strings.Join(alts, "|"))
+			}
+			e.Add(core.Case{Impl: strings.Join(tt, ","), Spec: "0x" + hex.EncodeToString(sighash), Key: "topics " + declToks, Nontrivial: true, Tags: []string{"topics-restriction"},
+				Detail: map[string]any{"event": ev, "block": cig.Block}})
+			rawAgg = core.Pick(r, []string{"", "", "AND", "Or", "and", "or", "OR"})
+			if x, err := dig.New(cig.Name, cig.Event, cig.Block, cig.Table, cig.Notification, rawAgg); err == nil {
+				igRaw = &x
+				rawTok := strings.ToLower(rawAgg)
+				if rawTok == "" {
+					rawTok = "-"
+				}
+				fltx := x.Filter()
+				addrs := fltx.Addresses()
+				impl := "-"
+				if len(addrs) > 0 {
+					var xs []string
+					for _, a := range addrs {
+						xs = append(xs, strings.TrimPrefix(a, "0x"))
+					}
+					impl = strings.Join(xs, ",")
+				}
+				rawDecl := fmt.Sprintf("%s %s %s %s", rawTok, ec.desc, iflTok, strings.Join(bsp, ";"))
+				e.Add(core.Case{Op: "pushaddrs " + rawDecl, Impl: impl, Nontrivial: nActive > 0, Tags: []string{"pushaddrs", "declaration-from-database", "agg-as-written=" + rawAgg, fmt.Sprintf("pushed=%v", len(addrs) > 0)},
+					Detail: map[string]any{"block": cig.Block, "agg": rawAgg}})
+			}
+		}
 		// ---- logs: matching and decoys
 		type lg struct {
 			topics [][]byte
@@ -745,6 +783,71 @@ func runRows(e *core.Env, prop string) error {
 					Nontrivial: nActive > 0, Tags: []string{"ptx", "impl:" + strings.SplitN(impl, " ", 2)[0]}, Key: op,
 					Detail: map[string]any{"block": cig.Block, "agg": cig.FilterAGG}})
 				break
+			}
+			if prop == "C12" && l.tag == "matching" && strings.HasPrefix(impl, "ok ") {
+				// the declared filters keep this log: every topic position eth_getLogs is restricted at must admit it
+				verdict := "ok"
+				for i, alts := range topicFilter {
+					if len(alts) == 0 {
+						continue
+					}
+					in := false
+					if i < len(l.topics) {
+						for _, a := range alts {
+							in = in || strings.EqualFold(strings.TrimPrefix(a, "0x"), hex.EncodeToString(l.topics[i]))
+						}
+					}
+					if !in {
+						verdict = fmt.Sprintf("the filters keep the log but eth_getLogs is restricted at topic %d to %v", i, alts)
+					}
+				}
+				e.Add(core.Case{Impl: verdict, Spec: "ok", Key: "topics-pushdown-o " + op, Nontrivial: true, Tags: []string{"topics-pushdown-oracle"},
+					Detail: map[string]any{"event": ev, "topics": tt, "restriction": topicFilter}})
+				if igRaw != nil {
+					// the same log through the declaration as the database path builds it
+					fcr := &fakeConn{refs: map[string]map[string]bool{"reft.refc": refSet}}
+					implRaw := core.Protect(func() string {
+						if _, err := igRaw.Insert(e2eCtx("src1", 7), &mu, fcr, []eth.Block{b2}); err != nil {
+							return "err"
+						}
+						if len(fcr.copies) != 1 {
+							return fmt.Sprintf("copies=%d", len(fcr.copies))
+						}
+						var rows []string
+						for _, row := range fcr.copies[0].Rows {
+							var cs []string
+							for _, c := range row {
+								cs = append(cs, renderVal(c))
+							}
+							rows = append(rows, strings.Join(cs, ","))
+						}
+						if len(rows) == 0 {
+							return "ok"
+						}
+						return "ok " + strings.Join(rows, ";")
+					})
+					rawTok := strings.ToLower(rawAgg)
+					if rawTok == "" {
+						rawTok = "-"
+					}
+					opRaw := fmt.Sprintf("plog %s %s %s %s %s %s %s %s %s", rawTok, ec.desc, iflTok, strings.Join(bsp, ";"), core.Hex(sighash), refsTok, topTok, core.Hex(l.data), strings.Join(ctxs, ";"))
+					e.Add(core.Case{Op: opRaw, Impl: implRaw, Nontrivial: nActive > 0, Tags: []string{"plog", "declaration-from-database", "impl:" + strings.SplitN(implRaw, " ", 2)[0]},
+						Detail: map[string]any{"event": ev, "block": cig.Block, "agg": rawAgg}})
+					if strings.HasPrefix(implRaw, "ok ") {
+						fltr := igRaw.Filter()
+						addrs := fltr.Addresses()
+						in := len(addrs) == 0
+						for _, a := range addrs {
+							in = in || strings.EqualFold(strings.TrimPrefix(a, "0x"), hex.EncodeToString(laddr))
+						}
+						v := "ok"
+						if !in {
+							v = fmt.Sprintf("the filters (aggregation %q as stored) keep a log of address %x but eth_getLogs is restricted to %v", rawAgg, laddr, addrs)
+						}
+						e.Add(core.Case{Impl: v, Spec: "ok", Key: "pushdown-o-raw " + opRaw, Nontrivial: true, Tags: []string{"pushdown-oracle", "declaration-from-database"},
+							Detail: map[string]any{"block": cig.Block, "agg": rawAgg, "log_addr": hex.EncodeToString(laddr), "pushed": addrs}})
+					}
+				}
 			}
 			if prop == "C12" && len(pushed) > 0 && l.tag == "matching" && strings.HasPrefix(impl, "ok ") {
 				// the declared filters keep this log (a row was emitted); eth_getLogs is restricted to the pushed
